@@ -29,6 +29,7 @@ pub fn dispatch(cmd: &str, c: &Value) -> Value {
         "catalogue" => catalogue(c),
         "details_batches" => details_batches(c),
         "pipeline" => pipeline(c),
+        "seg_history" => seg_history(c),
         "varint" => varint(c),
         "collvarint" => collvarint(c),
         "stream_names" => stream_names(c),
@@ -754,6 +755,53 @@ pub fn pipeline(c: &Value) -> Value {
     }
     json!({ "ok": distinct.len() == 1, "distinct_archives": distinct.len(), "sizes": distinct.iter().map(|d| d.len()).collect::<Vec<_>>(),
             "why": if distinct.len() == 1 { String::new() } else { format!("{} distinct archives over {} runs with {} worker(s) + 1 run with one worker", distinct.len(), runs, threads) } })
+}
+
+/// C08 segment level: a real archive (multi-file driving, one worker), then the given history of reader operations on ONE handle,
+/// each answer compared with the same query on a fresh handle; get_reference_segment of an existing LZ group must succeed.
+pub fn seg_history(c: &Value) -> Value {
+    use ragc_core::{Decompressor, DecompressorConfig, StreamingQueueCompressor, StreamingQueueConfig};
+    let samples: Vec<(String, Vec<(String, Vec<u8>)>)> = c["samples"].as_array().unwrap().iter().map(|s| {
+        (s[0].as_str().unwrap().to_string(), s[1].as_array().unwrap().iter().map(|ct| (ct[0].as_str().unwrap().to_string(), bytes(&ct[1]))).collect())
+    }).collect();
+    let splitters: ahash::AHashSet<u64> = c["splitters"].as_array().unwrap().iter().map(u64_of).collect();
+    let path = tmp_path("seghist");
+    let cfg = StreamingQueueConfig { k: 3, segment_size: 4, min_match_len: 4, num_threads: 1, queue_capacity: 1 << 20, verbosity: 0, ..StreamingQueueConfig::default() };
+    {
+        let mut comp = StreamingQueueCompressor::with_splitters(&path, cfg, splitters).unwrap();
+        for (si, (sn, contigs)) in samples.iter().enumerate() {
+            for (cn, d) in contigs { comp.push(sn.clone(), cn.clone(), d.clone()).unwrap(); }
+            if si == 0 { comp.drain().unwrap(); comp.sync_and_flush("AAA#0_REF").unwrap(); }
+        }
+        comp.finalize().unwrap();
+    }
+    let open = || Decompressor::open(path.to_str().unwrap(), DecompressorConfig { verbosity: 0 }).unwrap();
+    let mut groups: Vec<u32> = vec![];
+    for (_, _, segs) in open().get_all_segments().unwrap() { for d in segs { if !groups.contains(&d.group_id) { groups.push(d.group_id); } } }
+    let query = |h: &mut Decompressor, op: &str, sample: &str, contig: &str, gid: u32| -> String {
+        match op {
+            "get_contig" => format!("{:?}", h.get_contig(sample, contig).map_err(|_| ())),
+            "get_sample" => format!("{:?}", h.get_sample(sample).map_err(|_| ())),
+            "get_contig_range" => format!("{:?}", h.get_contig_range(sample, contig, 2, 9).map_err(|_| ())),
+            "get_contig_length" => format!("{:?}", h.get_contig_length(sample, contig).map_err(|_| ())),
+            "get_reference_segment" => format!("{:?}", h.get_reference_segment(gid).map_err(|_| ())),
+            "list_contigs" => format!("{:?}", h.list_contigs(sample).map_err(|_| ())),
+            _ => format!("{:?}", h.get_all_segments().map(|v| v.len()).map_err(|_| ())),
+        }
+    };
+    let first_contig = |sn: &str| -> String { samples.iter().find(|(s, _)| s == sn).map(|(_, cs)| cs[0].0.clone()).unwrap_or_else(|| "nope".to_string()) };
+    let mut h = open();
+    let mut ok = true; let mut why = String::new();
+    for step in c["history"].as_array().unwrap() {
+        let op = step[0].as_str().unwrap(); let sample = step[1].as_str().unwrap(); let gid = step[2].as_u64().unwrap_or(0) as u32;
+        let contig = first_contig(sample);
+        let a = query(&mut h, op, sample, &contig, gid);
+        let b = query(&mut open(), op, sample, &contig, gid);
+        if a != b { ok = false; why = format!("{}({}) on the used handle gives {} but {} on a fresh handle", op, sample, &a[..a.len().min(60)], &b[..b.len().min(60)]); }
+        if op == "get_reference_segment" && gid >= 16 && groups.contains(&gid) && (a.starts_with("Err") || b.starts_with("Err")) { ok = false; why = format!("get_reference_segment({}) fails although the group exists (used handle: {}, fresh handle: {})", gid, &a[..a.len().min(20)], &b[..b.len().min(20)]); }
+    }
+    let _ = std::fs::remove_file(&path);
+    json!({ "ok": ok, "why": why, "groups": groups })
 }
 
 // ---------------------------------------------------------------- C06 / C05 bounded priority queue
